@@ -28,6 +28,19 @@
 (*             content, and the source of a save_path_content file IS the  *)
 (*             file that is written                                        *)
 (*                                                                         *)
+(* Round 4 (extension):                                                    *)
+(*   skipval   save(skip_validation=True): validate() is not called        *)
+(*   edited    "none" or the component whose value was (validly) changed   *)
+(*             after loading; a sub-file of kind "orig" (ActionJsonnet:    *)
+(*             __orig__ meta, :947-948) is written as its ORIGINAL text,   *)
+(*             content class  Stale(key)  when the component was edited    *)
+(*   scheme    how the target is spelled: "path" (a plain local path: str, *)
+(*             os.PathLike, ~/name, Path object) | "fileurl"               *)
+(*             (file:///abs/path -- a LOCAL file: Path strips the scheme)  *)
+(*             | "fsspec" (local://abs/path: a protocol fsspec knows, its  *)
+(*             LocalFileSystem) | "memory" (memory://..., fsspec's         *)
+(*             in-memory file system; fs["main"] then is that object)      *)
+(*                                                                         *)
 (* Contents: "absent", "dir", "old" (the user's data), "empty" (zero       *)
 (* bytes), or the key of the component whose dump the file holds ("main"   *)
 (* for the top-level config).                                              *)
@@ -60,6 +73,20 @@ Names(sc) == DOMAIN sc.pre
 InMain(sc, k) == k = "main" \/ (k # "none" /\ (~sc.multifile \/ k \notin SubKeysOf(sc)))
 \* what validate() sees: the whole config, whatever file a component came from
 Invalid(sc) == sc.invalid # "none"
+\* Ref level: the target lives on a file system that only fsspec reaches (multifile=True is documented as unsupported there)
+Remote(sc) == sc.scheme \in {"fsspec", "memory"}
+\* Alg level: which branch of save() the spelling takes.  _util.py:513,550-551: a leading file:// is stripped BEFORE
+\* known_to_fsspec (:567) is asked, so "fileurl" takes the local branch (:906-951, with check_overwrite) like a plain path;
+\* only protocols other than file:// that fsspec knows take :892-904
+FsspecBranch(sc) == sc.scheme \in {"fsspec", "memory"}
+LocalBranch(sc) == ~FsspecBranch(sc)
+\* ... unless save(skip_validation=True) (:791 / :917 `if not skip_validation`)
+Rejects(sc) == Invalid(sc) /\ ~sc.skipval
+\* content class of a file that holds what component k was BEFORE it was edited
+Stale(k) == k \o "~"
+\* the text written for sub-file x: the dump of the current value -- except kind "orig" (:947-948 val["__orig__"]): the
+\* text the component was loaded from, whatever the value is now                          (deviation OrigTextStale)
+TextOf(sc, x) == IF SubKind(x) = "orig" /\ sc.edited = SubKey(x) THEN Stale(SubKey(x)) ELSE SubKey(x)
 
 (***************************************************************************)
 (* Alg layer                                                               *)
@@ -93,6 +120,7 @@ CheckFormat(sc, s) == IF sc.fault.kind = "format" THEN Fail(s, "format") ELSE Go
 \* _core.py:906  path_fc = Path(path, mode="fc")  (_util.py:598-612: parent must be a writeable directory,
 \* an existing path must be a regular file)
 ResolveTarget(sc, s) ==
+  IF FsspecBranch(sc) THEN Goto(s, "fs_probe") ELSE
   IF sc.fault.kind = "noparent" \/ s.fs["main"] = "dir" THEN Fail(s, "notcreatable") ELSE Goto(s, "check_main")
 \* _core.py:907 with :886-888  check_overwrite(path_fc)
 CheckMain(sc, s) ==
@@ -105,7 +133,7 @@ CheckMain(sc, s) ==
 SOpen(sc, s) == OpenW(sc, s, "main", IF Variant = "code" THEN "s_validate" ELSE "s_write")
 \* :911 -> dump :791-792  self.validate(cfg)
 SValidate(sc, s) ==
-  IF Invalid(sc) THEN (IF Variant = "code" THEN FailOpen(s, "main", "invalid") ELSE Fail(s, "invalid"))
+  IF Rejects(sc) THEN (IF Variant = "code" THEN FailOpen(s, "main", "invalid") ELSE Fail(s, "invalid"))
   ELSE Goto(s, "s_serialize")
 \* :911 -> dump :794-806  _dump_cleanup_actions / dump_using_format: every value is serialised
 SSerialize(sc, s) ==
@@ -118,7 +146,7 @@ SWrite(sc, s) == WriteClose(sc, s, "main", "main", "done")
 \* :914-915  cfg = cfg.clone(); strip_link_target_keys -- works on a copy, no effect outside
 MClone(sc, s) == Goto(s, "m_validate")
 \* :917-919  self.validate(strip_meta(cfg)) BEFORE anything is written
-MValidate(sc, s) == IF Invalid(sc) THEN Fail(s, "invalid") ELSE Goto(s, "m_sub")
+MValidate(sc, s) == IF Rejects(sc) THEN Fail(s, "invalid") ELSE Goto(s, "m_sub")
 \* :921-923, 947-948  save_paths: the components with a __path__, in get_sorted_keys order, inside
 \* change_to_path_dir(path_fc) so that the base names resolve next to the main file
 Cur(sc, s) == sc.subs[s.i]
@@ -131,11 +159,12 @@ MSubResolve(sc, s) ==
 \* :928 / :942  check_overwrite(val_path) -- against the directory as it is NOW
 MSubCheck(sc, s) ==
   IF ~sc.overwrite /\ IsFile(s.fs[SubName(Cur(sc, s))]) THEN Fail(s, "refused")
-  ELSE Goto(s, IF SubKind(Cur(sc, s)) = "cfg" \/ Variant = "twophase" THEN "m_sub_dump" ELSE "m_sub_open")
+  ELSE Goto(s, IF SubKind(Cur(sc, s)) \in {"cfg", "orig"} \/ Variant = "twophase" THEN "m_sub_dump" ELSE "m_sub_open")
 \* :929-936  val_str = dump_using_format(...) -- the string is built before the sub-file is opened, but after
 \* the earlier sub-files were written                                              (deviation SubsBeforeDump)
+\* :947-948  a component with an __orig__ meta (ActionJsonnet) is not dumped at all: val_str = val["__orig__"]
 MSubDump(sc, s) ==
-  IF sc.unser = SubKey(Cur(sc, s)) THEN Fail(s, "unserialisable")
+  IF sc.unser = SubKey(Cur(sc, s)) /\ SubKind(Cur(sc, s)) # "orig" THEN Fail(s, "unserialisable")
   ELSE IF Variant = "twophase" THEN [s EXCEPT !.held = Append(s.held, Cur(sc, s)), !.i = s.i + 1, !.pc = "m_sub",
                                               !.refs = Append(s.refs, <<SubKey(Cur(sc, s)), SubName(Cur(sc, s))>>)]
   ELSE Goto(s, "m_sub_open")
@@ -145,7 +174,7 @@ MSubOpen(sc, s) == OpenW(sc, s, SubName(Cur(sc, s)), "m_sub_write")
 \* AFTER :943 opened the destination: saved in place, the source is that very file, just truncated
 \*                                                                              (deviation InplaceContentEmptied)
 Written(sc, s) == LET x == Cur(sc, s) IN
-                  IF SubKind(x) = "content" /\ sc.inplace /\ Variant = "code" THEN s.fs[SubName(x)] ELSE SubKey(x)
+                  IF SubKind(x) = "content" /\ sc.inplace /\ Variant = "code" THEN s.fs[SubName(x)] ELSE TextOf(sc, x)
 MSubWrite(sc, s) == WriteClose(sc, s, SubName(Cur(sc, s)), Written(sc, s), "m_sub_replace")
 \* :939 / :945  cfg[key] = basename -- the main document now refers to the file by name
 \* `refs` records what the saved document says where component `key` is to be found: the BARE name of the file just
@@ -167,8 +196,24 @@ MFlush(sc, s) ==
   ELSE LET x == Head(s.held)
            o == OpenW(sc, s, SubName(x), "m_flush") IN
        IF o.pc = "failed" THEN o
-       ELSE LET w == WriteClose(sc, o, SubName(x), SubKey(x), "m_flush") IN
+       ELSE LET w == WriteClose(sc, o, SubName(x), TextOf(sc, x), "m_flush") IN
             IF w.pc = "failed" THEN w ELSE [w EXCEPT !.held = Tail(s.held)]
+
+\* ---- fsspec target (a path spelled with a protocol fsspec knows), _core.py:892-904 -- the same in every Variant
+\* :894  path_sw = Path(path, mode="sw") -> _util.py:584-590: the fsspec target is PROBED by fsspec.open(abs_path, "w").open()
+\* and closed again: created or TRUNCATED before anything was checked               (deviation FsspecProbeTruncates)
+\* (a directory in the way is met by the open itself -- IsADirectoryError -- i.e. after an injected OSError of that open)
+FsProbe(sc, s) == LET o == OpenW(sc, s, "main", "fs_probe_close") IN
+                  IF o.pc = "failed" THEN o ELSE IF s.fs["main"] = "dir" THEN Fail(s, "notcreatable") ELSE o
+FsProbeClose(sc, s) == [s EXCEPT !.pc = "fs_multi", !.hist = Log(s, "close", "main", s.fs)]
+\* :898-899  multifile=True is refused for fsspec targets -- after the probe
+FsMulti(sc, s) == IF sc.multifile THEN Fail(s, "unsupported") ELSE Goto(s, "fs_open")
+\* :901  with fsspec.open(path, "w") as f -- no check_overwrite on this branch     (deviation FsspecNoOverwriteCheck)
+FsOpen(sc, s) == OpenW(sc, s, "main", "fs_validate")
+\* :902 -> dump :791-792 / :794-806, inside the with block                          (deviation FsspecOpenBeforeDump)
+FsValidate(sc, s) == IF Rejects(sc) THEN FailOpen(s, "main", "invalid") ELSE Goto(s, "fs_serialize")
+FsSerialize(sc, s) == IF sc.unser # "none" THEN FailOpen(s, "main", "unserialisable") ELSE Goto(s, "fs_write")
+FsWrite(sc, s) == WriteClose(sc, s, "main", "main", "done")
 
 Step(sc, s) ==
   CASE s.pc = "format"        -> CheckFormat(sc, s)
@@ -191,6 +236,13 @@ Step(sc, s) ==
     [] s.pc = "m_serialize"   -> MSerialize(sc, s)
     [] s.pc = "m_write"       -> MWrite(sc, s)
     [] s.pc = "m_flush"       -> MFlush(sc, s)
+    [] s.pc = "fs_probe"      -> FsProbe(sc, s)
+    [] s.pc = "fs_probe_close" -> FsProbeClose(sc, s)
+    [] s.pc = "fs_multi"      -> FsMulti(sc, s)
+    [] s.pc = "fs_open"       -> FsOpen(sc, s)
+    [] s.pc = "fs_validate"   -> FsValidate(sc, s)
+    [] s.pc = "fs_serialize"  -> FsSerialize(sc, s)
+    [] s.pc = "fs_write"      -> FsWrite(sc, s)
 
 RECURSIVE RunFrom(_, _)
 RunFrom(sc, s) == IF Terminal(s) THEN s ELSE RunFrom(sc, Step(sc, s))
@@ -209,14 +261,17 @@ NoSilentOverwrite(sc, fs) ==
 
 \* Everything that can make this call fail.  A refusal is possible when some file save() would write exists;
 \* an OSError counts only when it fired.
-Targets(sc) == {"main"} \cup (IF sc.multifile THEN {SubName(x) : x \in Range(sc.subs)} ELSE {})
+Targets(sc) == {"main"} \cup (IF sc.multifile /\ ~Remote(sc) THEN {SubName(x) : x \in Range(sc.subs)} ELSE {})
+\* an object inside a component that is written as its original text is never handed to a dumper
+UnserNeverDumped(sc) == sc.multifile /\ ~Remote(sc) /\ \E x \in Range(sc.subs) : SubKey(x) = sc.unser /\ SubKind(x) = "orig"
 Causes(sc, fired) ==
-     (IF sc.invalid # "none" THEN {"invalid"} ELSE {})
-  \cup (IF sc.unser # "none" THEN {"unserialisable"} ELSE {})
+     (IF Rejects(sc) THEN {"invalid"} ELSE {})                    \* with skip_validation an invalid value is no reason to fail
+  \cup (IF Remote(sc) /\ sc.multifile THEN {"unsupported"} ELSE {})       \* NotImplementedError (:898-899)
+  \cup (IF sc.unser # "none" /\ ~UnserNeverDumped(sc) THEN {"unserialisable"} ELSE {})
   \cup (IF sc.fault.kind = "format" THEN {"format"} ELSE {})
   \cup (IF sc.fault.kind = "noparent" \/ \E f \in Targets(sc) : sc.pre[f] = "dir" THEN {"notcreatable"} ELSE {})
   \cup (IF ~sc.overwrite /\ \E f \in Targets(sc) : IsFile(sc.pre[f]) THEN {"refused"} ELSE {})
-  \cup (IF ~sc.overwrite /\ sc.multifile /\ \E a, b \in 1..Len(sc.subs) : a # b /\ SubName(sc.subs[a]) = SubName(sc.subs[b])
+  \cup (IF ~sc.overwrite /\ sc.multifile /\ ~Remote(sc) /\ \E a, b \in 1..Len(sc.subs) : a # b /\ SubName(sc.subs[a]) = SubName(sc.subs[b])
         THEN {"refused"} ELSE {})                     \* refuses to overwrite what it wrote itself
   \cup (IF fired THEN {"oserror"} ELSE {})
 \* "when saving fails because the configuration is invalid or cannot be serialised, no file has been created,
@@ -233,7 +288,8 @@ Reparses(sc, fs, refs) == /\ fs["main"] = "main"
                           /\ sc.multifile => \A x \in Range(sc.subs) :
                                 /\ RefersTo(refs, SubKey(x)) # {}
                                 /\ \A f \in RefersTo(refs, SubKey(x)) : f \in DOMAIN fs /\ fs[f] = SubKey(x)
-SavedReparses(sc, outcome, fs, refs) == outcome = "ok" => Reparses(sc, fs, refs)
+\* (a configuration that is invalid and was saved with skip_validation=True cannot be expected to parse)
+SavedReparses(sc, outcome, fs, refs) == (outcome = "ok" /\ ~(Invalid(sc) /\ sc.skipval)) => Reparses(sc, fs, refs)
 
 (***************************************************************************)
 (* The deviations of the pinned tree, by name (known findings are keyed on *)
@@ -241,18 +297,32 @@ SavedReparses(sc, outcome, fs, refs) == outcome = "ok" => Reparses(sc, fs, refs)
 (***************************************************************************)
 \* single-file: the target is opened (created / emptied) before the config is validated and serialised
 DevSingleOpenBeforeDump(sc, r) ==
-  ~sc.multifile /\ r.pc = "failed" /\ r.cause \in {"invalid", "unserialisable"} /\ r.fs = [sc.pre EXCEPT !["main"] = "empty"]
+  ~sc.multifile /\ LocalBranch(sc) /\ r.pc = "failed" /\ r.cause \in {"invalid", "unserialisable"} /\ r.fs = [sc.pre EXCEPT !["main"] = "empty"]
 \* multi-file: a value that cannot be serialised is met after sub-files were written (and, when it sits in the
 \* main document, after the main file was emptied)
 DevMultiWrittenBeforeDump(sc, r) ==
-  /\ sc.multifile /\ r.pc = "failed" /\ r.cause = "unserialisable"
+  /\ sc.multifile /\ LocalBranch(sc) /\ r.pc = "failed" /\ r.cause = "unserialisable"
   /\ \A f \in DOMAIN sc.pre : r.fs[f] # sc.pre[f] =>
         \/ \E j \in 1..(r.i - 1) : SubName(sc.subs[j]) = f           \* a sub-file written earlier
         \/ (f = "main" /\ r.fs[f] = "empty" /\ r.i > Len(sc.subs))   \* the main file, emptied
 \* multi-file: two components share a file name (or one is called like the main file): the later write wins
 Collision(sc) ==
-  sc.multifile /\ \/ \E a, b \in 1..Len(sc.subs) : a # b /\ SubName(sc.subs[a]) = SubName(sc.subs[b])
+  sc.multifile /\ ~Remote(sc)
+               /\ \/ \E a, b \in 1..Len(sc.subs) : a # b /\ SubName(sc.subs[a]) = SubName(sc.subs[b])
                   \/ \E a \in 1..Len(sc.subs) : SubName(sc.subs[a]) = "main"
+\* multi-file: a component loaded by ActionJsonnet and edited afterwards is written as the text it was loaded from: save()
+\* succeeds, the saved path parses to the value BEFORE the edit (everything else is as it should be)
+DevOrigTextStale(sc, r) ==
+  /\ sc.multifile /\ LocalBranch(sc) /\ r.pc = "done"
+  /\ \E x \in Range(sc.subs) : /\ SubKind(x) = "orig" /\ sc.edited = SubKey(x) /\ r.fs[SubName(x)] = Stale(SubKey(x))
+                                /\ Reparses(sc, [r.fs EXCEPT ![SubName(x)] = SubKey(x)], r.refs)
+\* fsspec target: nothing but the main file is touched; it is left emptied or holding the new document
+FsspecOnlyMain(sc, fs) == FsspecBranch(sc) /\ \E c \in {sc.pre["main"], "empty", "main"} : fs = [sc.pre EXCEPT !["main"] = c]
+\* ... although it existed and overwrite was not requested (probe :894 and open :901 happen without check_overwrite)
+DevFsspecNoOverwriteCheck(sc, fs) == FsspecOnlyMain(sc, fs) /\ ~sc.overwrite /\ IsFile(sc.pre["main"]) /\ fs["main"] # sc.pre["main"]
+\* ... although the configuration is invalid / cannot be serialised (:901 opens before :902 dumps; the probe before that)
+DevFsspecOpenBeforeDump(sc, r) ==
+  /\ r.pc = "failed" /\ r.cause \in {"invalid", "unserialisable"} /\ FsspecOnlyMain(sc, r.fs) /\ r.fs["main"] = "empty" /\ r.fs # sc.pre
 \* multi-file, in place: the file behind a save_path_content value is emptied (everything else is as it should be)
 DevInplaceContentEmptied(sc, r) ==
   /\ sc.multifile /\ sc.inplace /\ r.pc = "done" /\ r.fs["main"] = "main"
@@ -262,7 +332,10 @@ DevName(sc, r) ==
   IF r.pc = "failed" /\ r.fs # sc.pre /\ DevSingleOpenBeforeDump(sc, r) THEN "single-open-before-dump"
   ELSE IF r.pc = "failed" /\ r.fs # sc.pre /\ DevMultiWrittenBeforeDump(sc, r)
        THEN (IF r.i > Len(sc.subs) THEN "multi-written-before-main-dump" ELSE "multi-written-before-sub-dump")
+  ELSE IF DevFsspecOpenBeforeDump(sc, r) THEN "fsspec-open-before-dump"
+  ELSE IF Terminal(r) /\ DevFsspecNoOverwriteCheck(sc, r.fs) THEN "fsspec-no-overwrite-check"
   ELSE IF r.pc = "done" /\ Collision(sc) /\ ~Reparses(sc, r.fs, r.refs) THEN "multi-name-collision"
+  ELSE IF DevOrigTextStale(sc, r) THEN "multi-orig-text-stale"
   ELSE IF DevInplaceContentEmptied(sc, r) THEN "inplace-content-emptied"
   ELSE "none"
 =============================================================================
